@@ -28,9 +28,15 @@ def bootOp (j : Json) : R Json := do
   let rows ← fld j "rows" >>= asList (asList (asOpt asFloat))
   let o ← readObj j rows.length
   let pool := poolO m rows
+  -- `util/pooling.pool_rdm` for the whitened measures: normalisation by the whitened norm
+  let mask := maskOf (rows.headD [])
+  let poolw : Json :=
+    if m.needsV && commonMask rows then
+      ofList (ofOpt ofFloat) (expand mask (poolW m (vFor m o.nC mask) (rows.map present)))
+    else Json.null
   match bootNoiseCeilingO m o rows with
   | some p => pure (obj [("lower", ofFloat p.1), ("upper", ofFloat p.2),
-      ("pool", ofList (ofOpt ofFloat) pool), ("folds", ofNat (looFolds o).length)])
+      ("pool", ofList (ofOpt ofFloat) pool), ("poolw", poolw), ("folds", ofNat (looFolds o).length)])
   | none => pure (obj [("exc", Json.str "ValueError"), ("pool", ofList (ofOpt ofFloat) pool)])
 
 def asVals (j : Json) : R (Option (List Nat)) := asOpt (asList asNat) j
@@ -72,8 +78,24 @@ def scoreOp (j : Json) : R Json := do
   let V : List (List Float) := vFor m o.nC (maskOf (rows.headD []))
   pure (ofFloat (candidateScore (simO m V) rows o cand))
 
+/-- `pool_rdm` for the methods outside the property (plain NaN-aware mean for `euclid` /
+    `neg_riem_dist`, mean of ranks for the tau measures) -/
+def poolOnlyOp (j : Json) : R Json := do
+  let rows ← fld j "rows" >>= asList (asList (asOpt asFloat))
+  let norm ← fld j "norm" >>= asStr
+  let pooled : List (Option Float) :=
+    if norm = "rank" then nanMeanRows (rows.map (applyO rankF)) else nanMeanRows rows
+  pure (ofList (ofOpt ofFloat) pooled)
+
+/-- `_nonzero(norm)` entry-wise -/
+def nonzeroOp (j : Json) : R Json := do
+  let xs ← fld j "norms" >>= asList asFloat
+  pure (ofList ofFloat (xs.map nonzero))
+
 def handle : Handler := fun op j =>
   match op with
+  | "c07.nonzero" => some (nonzeroOp j)
+  | "c07.poolonly" => some (poolOnlyOp j)
   | "c07.boot" => some (bootOp j)
   | "c07.cv" => some (cvOp j)
   | "c07.score" => some (scoreOp j)
